@@ -157,12 +157,23 @@ def run(cx):
         return log, {"subprocess.run": run, "subprocess.check_call": check_call, "subprocess.call": lambda cmd, *a_, **kw_: run(cmd, *a_, **kw_).returncode,
                      "subprocess.CalledProcessError": lambda *a_, **k_: dl.Raised("CalledProcessError", ""), "Path": lambda p_: p_, "print": lambda *a_, **k_: None, "str": str}
 
+    class _Sub(dl.Synth):
+        DEVNULL, PIPE, STDOUT = -3, -1, -2
+
+    def _sub_for(opq_):
+        """the subprocess module as a value: `run = subprocess.run` must reach the same scripted tool as a direct call"""
+        sub_ = _Sub()
+        for k_, v_ in opq_.items():
+            if k_.startswith("subprocess."):
+                setattr(sub_, k_.split(".", 1)[1], v_)
+        return sub_
+
     fails = (1, 2, 255, -9, -2)
     scen = [(0, 0)] + [(f_,) for f_ in fails] + [(0, f_) for f_ in fails]
     for st in scen:
         log, opq = scripted(st)
         try:
-            out = dl.Interp(mp, opaque=opq, extra_env={"sys": _SysStub()}).call(cu, ["/proj/dir"])
+            out = dl.Interp(mp, opaque=opq, extra_env={"sys": _SysStub(), "subprocess": _sub_for(opq)}).call(cu, ["/proj/dir"])
         except dl.Unsupported as e:
             raise AnalysisError(f"compile_upload left the evaluable subset: {e}")
         tag = "ok" if st == (0, 0) else f"{'build' if len(st) == 1 else 'upload'}-exit[{st[-1]}]"
@@ -180,9 +191,6 @@ def run(cx):
     # ensure_pio against the same scripted tool: it probes on every call, a probe that exits 0 lets it return, every other
     # outcome - non-zero exit, death by signal, the executable missing or not executable - surfaces as RuntimeError
 
-    class _Sub(dl.Synth):
-        DEVNULL, PIPE, STDOUT = -3, -1, -2
-
     for label, statuses, exc in (("present", (0,), None), ("exit-1", (1,), None), ("exit-127", (127,), None), ("killed", (-9,), None), ("missing", (0,), "FileNotFoundError"), ("not-executable", (0,), "PermissionError")):
         for ncalls in (1, 2):
             log, opq = scripted(statuses)
@@ -196,7 +204,7 @@ def run(cx):
             outs = []
             try:
                 for _i in range(ncalls):
-                    outs.append(dl.Interp(mp, opaque=opq, extra_env={"sys": _SysStub(), "subprocess": _Sub()}).call(ep, []))
+                    outs.append(dl.Interp(mp, opaque=opq, extra_env={"sys": _SysStub(), "subprocess": _sub_for(opq)}).call(ep, []))
             except dl.Unsupported as e:
                 raise AnalysisError(f"ensure_pio left the evaluable subset: {e}")
             healthy = exc is None and statuses == (0,)
